@@ -161,6 +161,9 @@ func (engine *Engine) DialAsyncTimeout(network, addr string, timeout time.Durati
 	h := func(c *Conn, err error) {
 		if err == nil {
 			_ = c.SetWriteDeadline(time.Time{})
+		} else {
+			// no connection comes with a failure.
+			c = nil
 		}
 		onConnected(c, err)
 	}
